@@ -929,7 +929,14 @@ impl Engine for C11 {
         json!({
             "real": ["feos-core State/Cache/getters", "all feos models in the pool (PR, PC-SAFT, gc-PC-SAFT, SAFT-VR Mie, SAFT-VRQ Mie, PeTS, uv-theory, ePC-SAFT, PC-SAFT functional)", "num-dual", "ndarray", "rayon (iterators, plumbing, collect)", "quantity"],
             "stub": ["std::sync::Mutex in State -> shuttle::sync::Mutex (cfg feos_verif_shuttle)", "rayon-core -> deterministic stand-in (/verif/sim/rayon-core-sim)", "OS threads -> shuttle threads", "getrandom(2) -> seeded"],
-            "not_exercised": ["Python bindings", "real rayon-core work-stealing deques"]
+            "not_exercised": ["Python bindings", "real rayon-core work-stealing deques"],
+            "legend": {
+                "Get.g": pool().getters.iter().map(|g| g.name).collect::<Vec<_>>(),
+                "Get.c": ["ideal gas", "residual", "total"],
+                "Raw.kind": ["Zeroth", "First(d1)", "Second(d1)", "SecondMixed(d1,d2)", "Third(d1)"],
+                "derivative code": "-2 = DV, -1 = DT, i >= 0 = DN(i)",
+                "systems": pool().systems.iter().map(|s| s.name).collect::<Vec<_>>()
+            }
         })
     }
     fn assumptions(&self) -> Vec<String> {
